@@ -137,6 +137,26 @@ inductive Prim where
   | savedPReset | savedAReset
   deriving DecidableEq, Repr, Inhabited
 
+/-- What a reply statement does with the reply text (round 5: the text is carried, so that the bytes written to the child are
+    part of the translated body; `Model/EmuReply.lean` gives them a meaning). String literals are UTF-8 bytes; a format may contain
+    `%d` verbs only (checked by the translator), its arguments are int expressions of the language. -/
+inductive Reply where
+  /-- `resp := strings.Builder{}` -/
+  | newBuilder
+  /-- `resp.WriteString("…")` -/
+  | append (lit : List Nat)
+  /-- `resp := fmt.Sprintf("…", <ints>)` -/
+  | sprintf (fmt : List Nat) (args : List Ex)
+  /-- `vt.pty.WriteString(resp)` / `vt.pty.WriteString(resp.String())` -/
+  | sendResp
+  /-- `vt.pty.WriteString("…")` -/
+  | sendLit (lit : List Nat)
+  /-- `fmt.Fprintf(vt.pty, "…", <ints>)` -/
+  | fprintf (fmt : List Nat) (args : List Ex)
+  /-- a reply whose text is NOT carried (osc() 11: the host's colour formatted with `%02x`; C12 models it) -/
+  | opaque
+  deriving DecidableEq, Repr, Inhabited
+
 inductive Stmt where
   | skip
   | seq (a b : Stmt)
@@ -250,7 +270,7 @@ inductive Stmt where
   /-- a statement that only builds or sends a reply to the child — `fmt.Fprintf(vt.pty, …)`, `vt.pty.WriteString(…)`,
       `resp := strings.Builder{}`, `resp.WriteString("…")`, `resp := fmt.Sprintf("…", <ints>)` with `resp` a local used
       for nothing else: no effect on the emulator state -/
-  | reply
+  | reply (r : Reply)
   /-- csi(): `for _, param := range params { for i, p := range param { body } }` — every value of the parameter list,
       sub-parameters included, in place; inside, `p` is `Ex.pcur` and `param[i] = e` is `setPcur e` -/
   | forPmAll (body : Stmt)
